@@ -377,6 +377,8 @@ class Gen:
         return out
 
     def fixed_error(self, ty):
+        if ty[0] == "bare":
+            return False
         """does the type (transitively) contain a derived type that fixes its error type?"""
         k = ty[0]
         if k == "ref":
@@ -391,9 +393,117 @@ class Gen:
         if k in ("hmap", "bmap"): return self.fixed_error(ty[2])
         return False
 
+    # ---- probe-free twins ------------------------------------------------------------------------
+    def bare_ty(self, ty):
+        """the Rust type of a type expression written the way a user writes it: no probe anywhere (the derive sees `Option<u8>`,
+        `Vec<bool>`, ... as such); derived types are replaced by their probe-free twins B_<Name>"""
+        k = ty[0]
+        if k == "scalar": return SCALAR_RUST[ty[1]]
+        if k == "vec": return "Vec<%s>" % self.bare_ty(ty[1])
+        if k == "hset": return "std::collections::HashSet<%s>" % self.bare_ty(ty[1])
+        if k == "bset": return "std::collections::BTreeSet<%s>" % self.bare_ty(ty[1])
+        if k == "opt": return "Option<%s>" % self.bare_ty(ty[1])
+        if k == "box": return "Box<%s>" % self.bare_ty(ty[1])
+        if k == "arr": return "[%s; %d]" % (self.bare_ty(ty[1]), ty[2])
+        if k == "tup": return "(%s)" % ", ".join(self.bare_ty(t) for t in ty[1])
+        if k == "hmap": return "std::collections::HashMap<%s, %s>" % (ty[1], self.bare_ty(ty[2]))
+        if k == "bmap": return "std::collections::BTreeMap<%s, %s>" % (ty[1], self.bare_ty(ty[2]))
+        if k == "cs": return "serde_cs::vec::CS<%s>" % ty[1]
+        if k == "jvalue": return "serde_json::Value"
+        if k == "phantom": return "std::marker::PhantomData<u8>"
+        if k == "ref":
+            self.need_bare(ty[1])
+            return "B_" + ty[1]
+        raise ValueError(ty)
+
+    def need_bare(self, name):
+        if name in self.bare_defs:
+            return
+        d = self.defs[name]
+        fs = list(d.get("fields") or []) + [f for v in d.get("variants", []) for f in (v["fields"] or [])]
+        if d.get("cfrom") or d.get("validate") or d.get("deny") == "fn" or d.get("error") or \
+           any(f.get("from") or f["map"] or f["missing_fn"] or f["error"] or f.get("param") for f in fs):
+            raise ValueError("no probe-free twin for %s: it uses user functions / a fixed error type / type parameters" % name)
+        self.bare_defs.append(name)
+        for f in fs:
+            self.bare_ty(f["ty"])
+
+    def bare_field_attrs(self, src):
+        a = []
+        if src["rename"] is not None: a.append('rename = "%s"' % src["rename"])
+        if src["default"] == "trait": a.append("default")
+        elif src["default"] is not None: a.append("default = %s" % src["default"][1])
+        if src["skip"]: a.append("skip")
+        if src.get("split"):
+            return "".join("#[deserr(%s)] " % x for x in a)
+        return ("#[deserr(%s)] " % ", ".join(a)) if a else ""
+
+    def emit_bare_def(self, name):
+        d = self.defs[name]
+        cattrs = []
+        if d["rename_all"]: cattrs.append("rename_all = %s" % d["rename_all"])
+        if d["deny"] == "default": cattrs.append("deny_unknown_fields")
+        if d.get("tag"): cattrs.append('tag = "%s"' % d["tag"])
+        out = ["#[derive(deserr::Deserr, Debug, Clone, PartialEq, Eq, Hash, PartialOrd, Ord)]" if d.get("setelem") else "#[derive(deserr::Deserr, Debug)]"]
+        if cattrs: out.append("#[deserr(%s)]" % ", ".join(cattrs))
+        out.append("#[allow(non_snake_case, non_camel_case_types, dead_code)]")
+        if d["kind"] == "struct":
+            out.append("pub struct B_%s {" % name)
+            for f in d["fields"]:
+                out.append("    %spub %s: %s," % (self.bare_field_attrs(f), f["ident"], self.bare_ty(f["ty"])))
+            out.append("}")
+            out.append("impl ToJ for B_%s {" % name)
+            out.append("    fn to_j(&self) -> J {")
+            out.append('        let mut r = rv("struct");')
+            out.append('        r["name"] = json!("%s");' % name)
+            out.append('        r["e"] = json!([%s]);' % ", ".join('{"k": "%s", "v": self.%s.to_j()}' % (unraw(f["ident"]), f["ident"]) for f in d["fields"]))
+            out.append("        r")
+            out.append("    }")
+            out.append("}")
+        else:
+            out.append("pub enum B_%s {" % name)
+            for vs in d["variants"]:
+                va = []
+                if vs["rename"] is not None: va.append('rename = "%s"' % vs["rename"])
+                if vs["rename_all"]: va.append("rename_all = %s" % vs["rename_all"])
+                pre = ("".join("    #[deserr(%s)]\n" % x for x in va) if vs.get("split") else "    #[deserr(%s)]\n" % ", ".join(va)) if va else ""
+                if vs["fields"] is None:
+                    out.append("%s    %s," % (pre, vs["ident"]))
+                else:
+                    out.append("%s    %s {" % (pre, vs["ident"]))
+                    for f in vs["fields"]:
+                        out.append("        %s%s: %s," % (self.bare_field_attrs(f), f["ident"], self.bare_ty(f["ty"])))
+                    out.append("    },")
+            out.append("}")
+            out.append("impl ToJ for B_%s {" % name)
+            out.append("    fn to_j(&self) -> J {")
+            out.append('        let mut r = rv("variant");')
+            out.append("        match self {")
+            for vs in d["variants"]:
+                if vs["fields"] is None:
+                    out.append('            B_%s::%s => { r["name"] = json!("%s"); }' % (name, vs["ident"], unraw(vs["ident"])))
+                else:
+                    names = [f["ident"] for f in vs["fields"]]
+                    out.append("            B_%s::%s { %s } => {" % (name, vs["ident"], ", ".join(names)))
+                    out.append('                r["name"] = json!("%s");' % unraw(vs["ident"]))
+                    out.append('                r["e"] = json!([%s]);' % ", ".join('{"k": "%s", "v": %s.to_j()}' % (unraw(n), n) for n in names))
+                    out.append("            }")
+            out.append("        }")
+            out.append("        r")
+            out.append("    }")
+            out.append("}")
+        return out
+
     def run(self):
+        self.bare_defs = []
+        self.bare_entries = {}      # entry node id -> probe-free Rust type
         for e in self.entries:
-            self.entry_ids.append(self.occ(e))
+            if e[0] == "bare":
+                nid = self.occ(("ref", e[1]))
+                self.bare_entries[nid] = self.bare_ty(("ref", e[1]))
+                self.entry_ids.append(nid)
+            else:
+                self.entry_ids.append(self.occ(e))
         rs = ["// @generated by tools/gen_catalogue.py - do not edit",
               "use crate::rt::{bump, designated, designated_v, loc_rv, log_call, log_ret_err, log_ret_ok, new_fn_err, rv, str_rv, strs_rv, FnErr, RecErr, RecErr2, ToJ, P, W};",
               "use crate::core::{go, go_rec, Done};",
@@ -404,14 +514,22 @@ class Gen:
             if name in self.def_info:
                 rs += self.emit_def(name)
                 rs.append("")
+        rs.append("// ---- probe-free twins: the same definitions written the way a user writes them (no probe in any field type)")
+        for name in self.bare_defs:
+            rs += self.emit_bare_def(name)
+            rs.append("")
         rs.append("pub fn run_entry(id: u32, src: &str, etype: &str, payload: &OV) -> Done {")
         rs.append("    match id {")
         for nid, ety in zip(self.entry_ids, self.entries):
+            if nid in self.bare_entries:
+                rs.append("        %d => go::<%s>(src, etype, payload)," % (nid, self.bare_entries[nid]))
+                continue
             rs.append("        %d => %s::<%s>(src, etype, payload)," % (nid, "go_rec" if self.fixed_error(ety) else "go", self.rust_ty[nid]))
         rs.append('        _ => panic!("unknown catalogue entry {id}"),')
         rs.append("    }")
         rs.append("}")
         rs.append("pub const ENTRY_IDS: &[u32] = &[%s];" % ", ".join(str(x) for x in self.entry_ids))
+        rs.append("pub const BARE_IDS: &[u32] = &[%s];" % ", ".join(str(x) for x in sorted(self.bare_entries)))
         return "\n".join(rs) + "\n"
 
 
@@ -431,7 +549,7 @@ def generate(extra_defs=(), extra_entries=(), write=True, out_rs=None, out_json=
     """base catalogue (+ extra definitions / entries).  Without out_rs / out_json the committed files are (re)written."""
     g = Gen(list(C.DEFS) + list(extra_defs), list(C.ENTRIES) + list(extra_entries))
     rust = g.run()
-    table = {"nodes": [strip_node(n) for n in g.nodes], "entries": g.entry_ids}
+    table = {"nodes": [strip_node(n) for n in g.nodes], "entries": g.entry_ids, "bare": sorted(g.bare_entries)}
     if write:
         os.makedirs(os.path.join(V, "catalogue"), exist_ok=True)
         p = out_rs or os.path.join(os.environ.get("VERIF_HARNESS_DIR", os.path.join(V, "harness")), "dh", "src", "gen_cat.rs")
